@@ -87,7 +87,7 @@ CLAIMED = {
              "conditions), reduced costs (= c - S^T y), accessors, error value / exception class and Solution snapshot behaviour are compared with the "
              "certified truth, for glpk and glpk_exact. "
              "Whole problem: any optimum of AuxM.Net.fba is, on net fluxes, an optimum of the objective over all steady-state in-bounds flux vectors (fba_problem_optimum); the reported reduced cost (forward variable) is c - S^T y under any shadow prices y, the reverse variable's its negative (reduced_cost_is_c_minus_STy). Whole-problem layer (lean/CobraModel/Model/AuxProb.lean, Lemmas/AuxProb.lean): the complete solver problem cobrapy builds is a Lean function of the model content and the arguments, compared entry by entry (variables, boxes, kinds, row names, bounds, coefficients, objective, direction; exact rationals) with the raw GLPK problem read at the moment of every solve (harness/auxcorr.py); a mismatch is followed by oracle cases on the same model. "
-             "Certified answers: the dense form of the Lean-built problem (Prob.toDense) is handed to the untrusted exact simplex, its certificate is accepted only through Prob.certOpt / certInfeas (certified_answer_is_optimum, certified_infeasible, certified_fba_optimum), and GLPK's status and optimum for every captured continuous problem must lie between the certified optimum of that problem and that of the problem with every bound widened by 1e-6.",
+             "Certified answers: the dense form of the Lean-built problem (Prob.toDense) is handed to the untrusted exact simplex, its certificate is accepted only through Prob.certOpt / certInfeas (certified_answer_is_optimum, certified_infeasible, certified_fba_optimum), and GLPK's status and optimum for every captured continuous problem must lie between the certified optimum of that problem and that of the problem with every bound widened by 1e-6. check_solver_status is compared with ReplyM.checkSolverStatus exhaustively (every optlang status constant, None, an unknown status x raise_error off/on); check_solver_status_no_silent_pass: a status that is neither optimal nor in the generated has_primals list raises whatever the flag.",
         note=LP_NOTE, technique="Lean 4 proof (verified certificate checker, weak duality / Farkas) + certified differential testing of GLPK answers",
         design="DESIGN.md section 5, C04"),
     "C05": dict(
